@@ -105,8 +105,16 @@ func c03Ops(ms *memstore.Store, w *c03World, thorough bool) []c03Op {
 		latest, _ := githash.NewHash(log[0].ID)
 		first, _ := githash.NewHash(log[len(log)-1].ID)
 		sets = append(sets, idset{"latest", []githash.Hash{latest}}, idset{"latest+unknown", []githash.Hash{latest, w.unknown}})
+		// a non-entry at every position of the list (first, last, middle):
+		// the check of the named ids must not depend on where the bad one is
+		sets = append(sets,
+			idset{"unknown+latest", []githash.Hash{w.unknown, latest}},
+			idset{"blob+latest", []githash.Hash{w.blob, latest}},
+			idset{"latest+nonrsl-commit", []githash.Hash{latest, w.nonRSL}},
+		)
 		if len(log) > 1 {
-			sets = append(sets, idset{"first", []githash.Hash{first}}, idset{"latest+first", []githash.Hash{latest, first}})
+			sets = append(sets, idset{"first", []githash.Hash{first}}, idset{"latest+first", []githash.Hash{latest, first}},
+				idset{"first+nonrsl-commit+latest", []githash.Hash{first, w.nonRSL, latest}})
 		}
 	}
 	msgs := []string{""}
@@ -120,6 +128,11 @@ func c03Ops(ms *memstore.Store, w *c03World, thorough bool) []c03Op {
 				if skip == false && m != "" {
 					continue
 				}
+				if strings.Contains(s.name, "+") && s.name != "latest+first" && s.name != "latest+unknown" && (!skip || m != "") {
+					// lists with a non-entry at some position are refused
+					// whatever the flag and message: one variant each
+					continue
+				}
 				ops = append(ops, c03Op{Name: fmt.Sprintf("annotate(%s,skip=%v,msg=%q)", s.name, skip, m), kind: "annot", run: func(ms gitstore.Storer) error {
 					return rsl.NewAnnotationEntry(s.ids, skip, m).Commit(ms, false)
 				}, expect: func(added []world.ParsedText) string {
@@ -129,6 +142,20 @@ func c03Ops(ms *memstore.Store, w *c03World, thorough bool) []c03Op {
 					return ""
 				}})
 			}
+		}
+	}
+	if legacyOK && len(log) > 0 {
+		latest, _ := githash.NewHash(log[0].ID)
+		for _, s := range []idset{{"unknown+latest", []githash.Hash{w.unknown, latest}}, {"latest+nonrsl-commit", []githash.Hash{latest, w.nonRSL}}, {"blob+latest", []githash.Hash{w.blob, latest}}} {
+			s := s
+			ops = append(ops, c03Op{Name: fmt.Sprintf("annotate-legacy(%s)", s.name), kind: "annot", run: func(ms gitstore.Storer) error {
+				return rsl.NewAnnotationEntry(s.ids, true, "").CommitWithoutNumber(ms)
+			}, expect: func(added []world.ParsedText) string {
+				if len(added) != 1 || added[0].Kind != "annotation" {
+					return "expected one annotation"
+				}
+				return ""
+			}})
 		}
 	}
 	if legacyOK {
